@@ -97,7 +97,9 @@ func PurgeBuildReverseIndex(stores context2.Stores, opts ...PurgeOption) (*Purge
 		if lastIndex > options.indexStart {
 			options.indexStart = lastIndex // will resume index construction at the next chunk
 		}
-		indexTime = *ts // keep the creation date of the original index
+		if ts != nil {
+			indexTime = *ts // keep the creation date of the original index
+		} // else: the interrupted run did not upload any chunk, there is nothing to resume from
 
 		logger.Info("pre-existing index entries loaded into local KV store",
 			zap.Time("index_recording_time", indexTime),
